@@ -123,6 +123,16 @@ func recC09(c *ctx) {
 		return b
 	}
 
+	// callers commonly reuse one buffer for the key of successive calls: every key goes through keybuf (each call is
+	// complete before the buffer is overwritten, so this must not matter)
+	keybuf := make([]byte, 32)
+	kb := func(pk []byte) []byte {
+		if len(pk) != 32 {
+			return pk
+		}
+		copy(keybuf, pk)
+		return keybuf
+	}
 	nh := c.budget(40, 800)
 	shards := 16
 	for h := 0; h < nh; h++ {
@@ -142,9 +152,9 @@ func recC09(c *ctx) {
 				e["via"] = "plain"
 				if b.lo.Verify.AllowSmallOrderR && !b.lo.Verify.AllowSmallOrderA && !b.lo.Verify.AllowNonCanonicalA && !b.lo.Verify.AllowNonCanonicalR &&
 					!b.lo.Verify.CofactorlessVerify && b.lo.Context == "" && b.lo.Hash == 0 && r.Intn(2) == 0 {
-					bv.Add(b.rq.pk, b.rq.msg, b.rq.sig)
+					bv.Add(kb(b.rq.pk), b.rq.msg, b.rq.sig)
 				} else {
-					bv.AddWithOptions(b.rq.pk, b.rq.msg, b.rq.sig, b.lo)
+					bv.AddWithOptions(kb(b.rq.pk), b.rq.msg, b.rq.sig, b.lo)
 				}
 			case 1:
 				e["via"] = "expanded"
@@ -163,7 +173,7 @@ func recC09(c *ctx) {
 				_, err := ed25519.NewExpandedPublicKey(b.rq.pk)
 				e["keynil"] = err != nil
 				e["cache"] = true
-				cv.AddWithOptions(bv, b.rq.pk, b.rq.msg, b.rq.sig, b.lo)
+				cv.AddWithOptions(bv, kb(b.rq.pk), b.rq.msg, b.rq.sig, b.lo)
 			}
 			if len(b.rq.pk) == 32 {
 				e["single"] = b.single()
@@ -291,11 +301,23 @@ func recC09(c *ctx) {
 				verify()
 			}
 		}
-		// batch soundness probe: two entries whose S are off by +1 and -1 (errors cancel unless the random coefficients differ)
+		// batch soundness probe: two entries whose S are off by +1 and -1 (their errors cancel unless their random
+		// coefficients differ), adjacent or d positions apart among valid entries (coefficients must be independent
+		// across the whole batch, not only between neighbours)
 		if h%4 == 1 {
+			dists := []int{1, 2, 3, 4, 7, 8, 15, 16, 17, 31, 32, 33, 48, 64}
+			d := dists[(h/4)%len(dists)]
+			pre := r.Intn(4)
+			if h%8 == 1 {
+				d, pre = 1, 0 // the minimal form: the two entries alone
+			}
 			bv.Reset()
 			emit(vt.Ev{"op": "reset"})
-			for _, delta := range []int64{1, -1} {
+			if r.Intn(3) == 0 {
+				bv.ForceNoPublicKeyExpansion()
+				emit(vt.Ev{"op": "force"})
+			}
+			bad := func(delta int64) {
 				b := mk(0)
 				sv := vt.FromLE(b.rq.sig[32:])
 				sv.Add(sv, big.NewInt(delta))
@@ -304,16 +326,24 @@ func recC09(c *ctx) {
 				b.rq.cls.eqPrime = false
 				add(b, r.Intn(3))
 			}
+			for i := 0; i < pre; i++ {
+				add(mk(0), r.Intn(3))
+			}
+			bad(1)
+			for i := 1; i < d; i++ {
+				add(mk(0), r.Intn(3))
+			}
+			bad(-1)
 			batchonly()
 			verify()
 		}
 		// cached single verification under hits, misses and evictions: must equal plain verification
 		for i := 0; i < 6; i++ {
 			b := mk(r.Intn(13))
-			res := resStr(func() bool { return cv.VerifyWithOptions(b.rq.pk, b.rq.msg, b.rq.sig, b.lo) })
+			res := resStr(func() bool { return cv.VerifyWithOptions(kb(b.rq.pk), b.rq.msg, b.rq.sig, b.lo) })
 			emit(vt.Ev{"op": "cachedverify", "res": res, "single": b.single()})
 			if i%2 == 1 { // same key again: served from the cache
-				res2 := resStr(func() bool { return cv.VerifyWithOptions(b.rq.pk, b.rq.msg, b.rq.sig, b.lo) })
+				res2 := resStr(func() bool { return cv.VerifyWithOptions(kb(b.rq.pk), b.rq.msg, b.rq.sig, b.lo) })
 				emit(vt.Ev{"op": "cachedverify", "res": res2, "single": b.single()})
 			}
 		}
